@@ -113,6 +113,11 @@ func runVMWith(stmt ast.Stmt, k int, limit time.Duration, setup func(*env.Env)) 
 	if setup != nil {
 		setup(e)
 	}
+	return runVMOn(e, stmt, k, limit)
+}
+
+// runVMOn executes stmt in the given environment (the stubs are (re)bound in it first).
+func runVMOn(e *env.Env, stmt ast.Stmt, k int, limit time.Duration) vmResult {
 	var mu sync.Mutex
 	var trace []string
 	defineStubs(e, func(x interface{}) {
